@@ -215,3 +215,16 @@ package crypto
 //@   ensures err == nil ==> signature != nil
 //@   ensures err != nil ==> signature == nil
 //@   modifies alloc
+
+// ---- rebuilding a bit-field from its byte form: for EVERY byte string the recomputed size is
+// the number of set bits (so the set equals the original and Len counts its members).
+//@ pure func popbelow(x byte, k int) int = b2i(k > 0 && bit(x,0)) + b2i(k > 1 && bit(x,1)) + b2i(k > 2 && bit(x,2)) + b2i(k > 3 && bit(x,3)) + b2i(k > 4 && bit(x,4)) + b2i(k > 5 && bit(x,5)) + b2i(k > 6 && bit(x,6)) + b2i(k > 7 && bit(x,7))
+//@ func BitfieldFromBytes property C19,C10
+//@   mode bytebv
+//@   requires len(b) <= 268435456
+//@   ensures [wf] isSet(result)
+//@   ensures [same-bytes] samearr(result.data, b) && len(result.data) == len(b)
+//@   loop ForEach.RangeWhile.0 invariant [count] *l == cnt(b, rangeindex + 1) && samearr(bf.data, b) && len(bf.data) == len(b)
+//@   loop ForEach.RangeWhile.1 invariant [count] *l == cnt(b, rangeindex@ForEach.RangeWhile.0 + 1) + popbelow(b[rangeindex@ForEach.RangeWhile.0 + 1], rangeint_iter) && 0 <= rangeint_iter && rangeint_iter < 8 && samearr(bf.data, b) && len(bf.data) == len(b) && 0 <= rangeindex@ForEach.RangeWhile.0 + 1 && rangeindex@ForEach.RangeWhile.0 + 1 < len(b)
+//@   use loop ForEach.RangeWhile.0 head :: cnt_nonneg(b, rangeindex + 1)
+//@   use loop ForEach.RangeWhile.1 head :: cnt_nonneg(b, rangeindex@ForEach.RangeWhile.0 + 1)
